@@ -245,7 +245,14 @@ def shard_country(arg):
 
 
 def cross_process(rec: Rec, batch, hashseeds):
-    here = [evaluate(c) for c in batch]
+    """batch items may carry 'after_failed': a call that is evaluated in THIS process right before the item (and never in the
+    fresh interpreters) - the draw after a failed draw."""
+    sent = [{k: v for k, v in c.items() if k != "after_failed"} for c in batch]
+    here = []
+    for c, c0 in zip(batch, sent):
+        if "after_failed" in c:
+            evaluate(c["after_failed"])
+        here.append(evaluate(c0))
     env_base = dict(os.environ)
     script = os.path.join(os.path.dirname(os.path.dirname(os.path.abspath(__file__))), "engines", "randchild.py")
     procs = []
@@ -256,7 +263,7 @@ def cross_process(rec: Rec, batch, hashseeds):
                                            stderr=subprocess.PIPE, env=env, text=True)))
     n_diff = 0
     for hs, p in procs:
-        out, err = p.communicate(json.dumps(batch), timeout=600)
+        out, err = p.communicate(json.dumps(sent), timeout=600)
         if p.returncode != 0:
             raise HarnessError(f"random child failed (PYTHONHASHSEED={hs}): {err[-500:]}")
         there = json.loads(out)
@@ -325,6 +332,31 @@ def run(ctx):
             cl = gen().classes(cc)[a:e]
             if all(ch in gens_class(k) for ch, k in zip(code, cl)):
                 batch.append({"cls": "IBAN", "cc": cc, "seed": rng.randrange(2 ** 32), "use_registry": True, "pins": {"bank_code": code}})
+    # draws after FAILED draws: in this process a registry-mode draw that ends in the overflow error (pins for which no
+    # national check digit exists) comes first; the draw with the same seed and country without pins is part of the batch, and
+    # the fresh interpreters below have never seen the failed call
+    n_over = 0
+    for cc in sorted(onat.FIELD):
+        if cc not in o.table:
+            continue
+        for _ in range(ctx.pick(60, 400)):
+            pins = {}
+            cl = gen().classes(cc)
+            for k in pinnable(cc):
+                a, e = o.positions(cc)[k]
+                pins[k] = conforming(rng, cl[a:e], e - a)
+            sd = rng.randrange(2 ** 32)
+            r0 = evaluate({"cls": "IBAN", "cc": cc, "seed": sd, "use_registry": False, "pins": pins})
+            if r0[0] == "err" and r0[1] == "GenerateRandomOverflowError":
+                for sd2 in (sd, rng.randrange(2 ** 32)):
+                    failed = {"cls": "IBAN", "cc": cc, "seed": sd2, "use_registry": True, "pins": pins}
+                    r = evaluate(failed)
+                    if r[0] == "err":
+                        n_over += 1
+                        batch.append({"cls": "IBAN", "cc": cc, "seed": sd2, "use_registry": True, "pins": {}, "after_failed": failed})
+                        batch.append({"cls": "BBAN", "cc": cc, "seed": sd2, "use_registry": True, "pins": {}, "after_failed": failed})
+                break
+    ctx.rec.classes["draw-after-failed-draw"] += n_over
     hs = ["0", "1", "2", "4242"] if ctx.quick else ["0", "1", "2", "3", "7", "42", "4242", "99999", "123456789", "4294967295",
                                                      "random", "random", "random", "random", "random", "random"]
     cross_process(ctx.rec, batch, hs)
@@ -334,5 +366,5 @@ def run(ctx):
     ctx.rec.sample("cross-process", {"batch_size": len(batch), "first": batch[0], "hashseeds": hs})
     from ._configs import stage as _config_stage
     _config_stage(ctx, ['random'])
-    ctx.require_classes("pin-combined-width", "pin-combined-width-listed", "pin-from-other-mode", "after-touch", "IBAN-registry-pinned-ok", "IBAN-noregistry-pinned-ok", "IBAN-registry-free-ok", "BBAN-registry-free-ok",
+    ctx.require_classes("draw-after-failed-draw", "pin-combined-width", "pin-combined-width-listed", "pin-from-other-mode", "after-touch", "IBAN-registry-pinned-ok", "IBAN-noregistry-pinned-ok", "IBAN-registry-free-ok", "BBAN-registry-free-ok",
                         "hyp-pinned-ok", "cross-process-comparisons", *[f"ok-{cc or 'ANY'}" for cc in ccs])
